@@ -70,6 +70,8 @@ def run(ctx):
     # real generated keys: identity of the theorem with the secret keys (exact), incl. full-size layout (t,b)=(8,2)
     real = [(8, 9, 8, 2, 300, 1), (33, 17, 8, 2, 300, 2), (16, 630, 8, 2, 100, 3), (7, 5, 3, 10, 100, 4), (9, 8, 14, 2, 200, 5), (5, 3, 1, 1, 200, 6), (1024, 630, 8, 2, 20 if not thorough else 400, 7), (6, 4, 5, 1, 200, 8), (4, 4, 15, 1, 100, 9), (3, 5, 31, 1, 100, 10), (5, 4, 4, 7, 100, 11)]
     rl = ['ksreal %d %d %d %d %d %d 1 15' % (n, no, t, b, ns, ctx.seed * 100 + sd) for (n, no, t, b, ns, sd) in real]
+    # the same with keys from lweCreateKeySwitchKey_old (noises recentred after encryption: renormalizeKSkey)
+    rl += ['ksreal %d %d %d %d %d %d 1 15 1' % (n, no, t, b, ns, ctx.seed * 100 + sd + 50) for (n, no, t, b, ns, sd) in real if n * t * (1 << b) <= 40000][:: (1 if thorough else 2)]
     for l, o in zip(rl, vlib.run_lines(exes['optim'], rl, timeout=1800)):
         ctx.count(l)
         if o.startswith('CRASH'): ctx.report('ksreal-crash', l + ': ' + o, {'case': l, 'impl': o}); continue
@@ -78,7 +80,7 @@ def run(ctx):
         if bad: ctx.report('ksreal-identity', '%s: phase_out - phase_in differs from the rounding term minus the used rows\' noise on %d of %d samples' % (l, bad, ns), {'case': l, 'impl': o})
         # every row (i,j,h>=1) of the generated key encrypts h*s_i/base^(j+1): its error is a Gaussian of stdev 2^-15 (131072 units), never 12 sigma
         if maxrow > 12 * 131072: ctx.report('ks-row-message', '%s: a row of the key lweCreateKeySwitchKey generated is %d units away from h*s_i/base^(j+1) (noise stdev 131072 units): it encrypts something else' % (l, maxrow), {'case': l, 'impl': o})
-        if h0bad: ctx.report('ks-h0-rows', '%s: %d rows with h=0 are not the trivial zero sample' % (l, h0bad), {'case': l, 'impl': o})
+        if h0bad and not l.endswith(' 1 15 1'): ctx.report('ks-h0-rows', '%s: %d rows with h=0 are not the trivial zero sample' % (l, h0bad), {'case': l, 'impl': o})
         ctx.hypotheses[l] = {'max_abs_sum_of_used_row_noise_units': maxsum, 'max_abs_row_noise_units': maxrow}
     if thorough:
         jobs = [('kssweep %d %d %d %d' % (t, b, part * 2**28, (part + 1) * 2**28), (t, b)) for (t, b) in [(8, 2), (14, 2), (3, 10), (1, 1)] for part in range(16)]
